@@ -234,6 +234,18 @@ def parse_template(text):
                     raise TemplateError("line %d: //@extract <file> <item path>" % (i + 1))
                 cur = Block(toks[1], toks[2].strip(), i + 1)
                 curkey = None
+            elif s.startswith("//@include_tmpl"):
+                # //@include_tmpl <file under verus/> [trusted]  -- inline another template fragment; with `trusted`
+                # every extract block in it keeps its contract but is NOT re-verified here (verified in its own unit)
+                if lit:
+                    parts.append(("lit", "\n".join(lit), i - len(lit) + 1))
+                    lit = []
+                toks = s.split()
+                sub = open(os.path.join(VERIF, "verus", toks[1])).read()
+                for kind, payload, tl in parse_template(sub):
+                    if kind == "block" and len(toks) > 2 and toks[2] == "trusted":
+                        payload.trusted = "contract verified in its own unit (%s); assumed here" % toks[1]
+                    parts.append((kind, payload, tl))
             elif s.startswith("//@include"):
                 if lit:
                     parts.append(("lit", "\n".join(lit), i - len(lit) + 1))
